@@ -56,7 +56,7 @@ func TestRtpfbReports(t *testing.T) {
 		if err != nil {
 			t.Fatalf("NewInterceptor: %v", err)
 		}
-		defer func() { _ = ic.Close() }()
+		defer kit.BoundedClose(ic.Close)
 		twccW := ic.BindLocalStream(&interceptor.StreamInfo{SSRC: 800, RTPHeaderExtensions: []interceptor.RTPHeaderExtension{{URI: transportCCURI, ID: twccExtID}}}, &kit.RTPSink{})
 		ccfbW := ic.BindLocalStream(&interceptor.StreamInfo{SSRC: 900}, &kit.RTPSink{})
 		src := &kit.ByteSource{}
